@@ -14,7 +14,7 @@ LIMIT = 2**53 - 1
 
 def fold(e):
     """constant-fold an arithmetic expression of integer literals"""
-    return eval(compile(ast.Expression(body=e), "<fold>", "eval"), {"__builtins__": {}}, {})
+    return eval(compile(ast.parse(ast.unparse(e), mode="eval"), "<fold>", "eval"), {"__builtins__": {}}, {})
 
 
 def run(ctx):
@@ -80,14 +80,14 @@ def run(ctx):
     for st in repo.module(UT).tree.body:
         if isinstance(st, ast.Assign) and len(st.targets) == 1 and isinstance(st.targets[0], ast.Name):
             try:
-                v = eval(compile(ast.Expression(body=st.value), "<fold>", "eval"), {"__builtins__": {}}, dict(consts_env))
+                v = eval(compile(ast.parse(ast.unparse(st.value), mode="eval"), "<fold>", "eval"), {"__builtins__": {}}, dict(consts_env))
                 if isinstance(v, int) and not isinstance(v, bool):
                     consts_env[st.targets[0].id] = v
             except Exception:
                 pass
 
     def foldc(e):
-        return eval(compile(ast.Expression(body=e), "<fold>", "eval"), {"__builtins__": {}}, dict(consts_env))
+        return eval(compile(ast.parse(ast.unparse(e), mode="eval"), "<fold>", "eval"), {"__builtins__": {}}, dict(consts_env))
 
     cmp_operand = clamp_operand = None
     ok, why = False, "no range test on the value found"
